@@ -206,13 +206,13 @@ Proof.
   set (isbom := negb (st_noBOM s) && prefix_of bom data).
   set (data1 := if isbom then zdrop 3 data else data).
   destruct (e && (zlen data1 =? 0)); [discriminate|].
-  destruct (skip_lines c e (S (length data1)) data1 (if isbom then 3 else 0) 0) as [| |line data2 adv skip] eqn:Sk.
+  destruct (skip_lines c e (S (length data1)) data1 (if isbom then 3 else 0) (if isbom then 3 else 0)) as [| |line data2 adv skip] eqn:Sk.
   - discriminate.
   - exfalso. eapply skip_enough; [|exact Sk]. lia.
   - pose proof (skip_lines_size _ _ _ _ _ _ _ _ _ _ Sk) as Hsz.
     destruct (parse_field c e (S (length data1)) line data2 adv [] false) as [|adv' fields cr|] eqn:P.
     + discriminate.
-    + destruct ((st_row (if isbom then mkSt true (st_row s) else s) =? 0) && c_header c); [discriminate|].
-      destruct (slice_cap (data1 ++ stale) nz skip adv'); discriminate.
+    + destruct ((st_row s =? 0) && c_header c); [discriminate|].
+      destruct (slice_cap (data ++ stale) nz skip adv'); discriminate.
     + exfalso. eapply (proj1 (parse_enough c e _)); [|exact P]. lia.
 Qed.
